@@ -8,10 +8,10 @@
         model: Stream.stream_events on the first k tokens;
         spec : the documents parsed from the whole token list, declarative tostream in document
                order, the events determined by the first k tokens (StreamPos.events_before).
-     (inputs …) (raw …) (args …): see below.
+     (inputs …) (args …): see below.
    (spec <line>) selects the declarative oracle. *)
 From Coq Require Import List NArith Bool String.
-From Verif Require Import common.Sexp c16.Stream c16.StreamPos c16.Codec.
+From Verif Require Import common.Sexp c16.Stream c16.StreamPos c16.Codec c16.Inputs c16.InputsSpec c16.Args.
 Import ListNotations.
 Open Scope N_scope.
 
@@ -45,18 +45,197 @@ Definition stream_line (spec : bool) (e : sexp) : sexp :=
   | _ => A "undecodable"
   end.
 
-(* STUBS-BEGIN *)
-Definition inputs_line (spec : bool) (e : sexp) : sexp := A "unimplemented".
-Definition raw_line (spec : bool) (e : sexp) : sexp := A "unimplemented".
-Definition args_line (spec : bool) (e : sexp) : sexp := A "unimplemented".
-(* STUBS-END *)
+(* ---- (inputs (mode <r> <t> <s> <n>) <query> <stdin> (<src>…) (<out>…)) ---------------------
+   <r> <t> <s> <n> = 0|1 for -R --stream -s -n;  <query> = id | pair | inputs | (inputk <k>)
+   <stdin>, <src> = missing | (d <hex text> <ok|bad> (<value>…) <eof|err> (<tok>…))
+   <out> = e | (v <value>): what the command printed, stdout values and stderr error lines in order.
+   model: the iterator state machines of Inputs.v composed by create_top, the slurp wrappers, cli.process;
+   spec : InputsSpec (per-input contributions concatenated in argument order, slurp_spec, …). *)
+Definition dec_bit (e : sexp) : option bool :=
+  if atom_is "1" e then Some true else if atom_is "0" e then Some false else None.
 
-Definition run_sexp (spec : bool) (e : sexp) : sexp :=
+Definition dec_data (e : sexp) : option (fsrc fdata) :=
+  match e with
+  | SList [t; Atom tx; b; SList vs; en; SList toks] =>
+      if atom_is "d" t then
+        match parse_hexs tx, dec_list dec_value vs, dec_ending en, dec_list dec_token toks with
+        | Some tx, Some vs, Some en, Some toks =>
+            Some (FData (mkfd tx vs (atom_is "bad" b) toks en))
+        | _, _, _, _ => None
+        end
+      else None
+  | _ => if atom_is "missing" e then Some FMissing else None
+  end.
+
+Inductive qkind := QId | QPair | QInputs | QInputK (k : nat).
+Definition dec_query (e : sexp) : option qkind :=
+  match e with
+  | SList [t; Atom k] => if atom_is "inputk" t then option_map (fun n => QInputK (N.to_nat n)) (parse_N k) else None
+  | _ => if atom_is "id" e then Some QId else if atom_is "pair" e then Some QPair
+         else if atom_is "inputs" e then Some QInputs else None
+  end.
+
+Definition enc_out (o : out) : sexp :=
+  match o with OVal v => SList [A "v"; enc_value v] | OErr => A "e" | OPanic => A "panic" end.
+
+Section RunMode.
+  Variables (I : Type) (inext : I -> option out * I).
+  Definition the_query (fuel : nat) (q : qkind) : query I :=
+    match q with
+    | QId => q_id I | QPair => q_pair I inext | QInputs => q_inputs I inext fuel
+    | QInputK k => q_input_k I inext k
+    end.
+  Definition run_mode (fuel : nat) (null : bool) (q : qkind) (i : I) : option (list out) :=
+    if null then Some (process_null I (the_query fuel q) i) else process I inext fuel (the_query fuel q) i.
+End RunMode.
+
+Definition model_inputs (fuel : nat) (m : mode) (null : bool) (q : qkind) (stdin : fdata)
+           (srcs : list (fsrc fdata)) : option (list out) :=
+  let t := create_top m stdin srcs in
+  if m_slurp m then
+    if m_raw m then run_mode _ (slurpraw_it top top_next fuel) fuel null q (t, false)
+    else run_mode _ (slurp_it top top_next fuel) fuel null q (t, false)
+  else run_mode _ top_next fuel null q t.
+
+Definition spec_inputs (fuel : nat) (m : mode) (null : bool) (q : qkind) (stdin : fdata)
+           (srcs : list (fsrc fdata)) : option (list out) :=
+  let f := fmt_of m in
+  let all := match srcs with [] => data_outs f stdin | _ => flat_map (src_outs f) srcs end in
+  let all' := if m_slurp m then (if m_raw m then [slurpraw_spec all []] else [slurp_spec all []]) else all in
+  match null, q with
+  | false, QId => Some all'
+  | true, QId => Some [OVal (VS SNull)]
+  | true, QInputs => Some [match inputs_spec all' [] with Some a => OVal (varr a) | None => OErr end]
+  | true, QInputK k => Some (inputk_spec k all')
+  | false, QPair => Some (pair_spec fuel all')
+  | _, _ => None                              (* no independent description: the model stands *)
+  end.
+
+Definition inputs_line (fuel : nat) (spec : bool) (e : sexp) : sexp :=
+  match e with
+  | SList [_; SList [_; r; t; s; n]; q; stdin; SList srcs; SList outs] =>
+      match dec_bit r, dec_bit t, dec_bit s, dec_bit n, dec_query q, dec_data stdin, dec_list dec_data srcs with
+      | Some r, Some t, Some s, Some n, Some q, Some (FData stdin), Some srcs =>
+          let m := mkmode r t s in
+          let res := if spec then spec_inputs fuel m n q stdin srcs else model_inputs fuel m n q stdin srcs in
+          match res with
+          | Some os => judge (SList (map enc_out os)) (SList outs)
+          | None => if spec then A "ok" else A "model-out-of-fuel"
+          end
+      | _, _, _, _, _, _, _ => A "undecodable"
+      end
+  | _ => A "undecodable"
+  end.
+
+(* ---- (args (<hex word>…) (<dict>…) <impl>) ----------------------------------------------------
+   the words of the command line (among them the query `$ARGS` and -n -c);
+   <dict> = (json <hex text> <value>|err) | (slurp <hex file> <value>|err) | (raw <hex file> <value>|err):
+   what encoding/json / the file system give for the texts and files mentioned;
+   <impl> = (out <value>) | err.
+   model: Args.parse_args (parseFlags + runInternal); spec: Args.items + first_binding/positional_spec. *)
+Fixpoint dict_find (kind : string) (key : str) (d : list sexp) : option sexp :=
+  match d with
+  | [] => None
+  | SList [t; Atom k; v] :: r =>
+      if atom_is kind t && (match parse_hexs k with Some k => str_eqb k key | None => false end)
+      then Some v else dict_find kind key r
+  | _ :: r => dict_find kind key r
+  end.
+
+(* None = the binding makes the command fail *)
+Definition resolve (d : list sexp) (a : aval) : option sexp :=
+  let ok v := match v with Some (Atom _) => None | x => x end in   (* err is the only atom that is not a value… *)
+  match a with
+  | AStr s => Some (SList [A "s"; Atom (print_hexs s)])
+  | AJson t => match dict_find "json" t d with
+               | Some v => if atom_is "err" v then None else Some v
+               | None => None end
+  | ASlurp f => match dict_find "slurp" f d with
+                | Some v => if atom_is "err" v then None else Some v
+                | None => None end
+  | ARaw f => match dict_find "raw" f d with
+              | Some v => if atom_is "err" v then None else Some v
+              | None => None end
+  end.
+
+Fixpoint resolve_all {K} (d : list sexp) (l : list (K * option aval)) : option (list (K * sexp)) :=
+  match l with
+  | [] => Some []
+  | (k, Some a) :: r => match resolve d a, resolve_all d r with
+                        | Some v, Some vs => Some ((k, v) :: vs)
+                        | _, _ => None end
+  | (k, None) :: r => option_map (cons (k, A "null")) (resolve_all d r)
+  end.
+
+(* order-insensitive comparison of the expected named bindings with the printed object *)
+Definition named_matches (exp : list (str * sexp)) (got : list sexp) : bool :=
+  Nat.eqb (List.length exp) (List.length got)
+  && forallb (fun kv => existsb (fun g => match g with
+                                          | SList [Atom k; v] =>
+                                              match parse_hexs k with
+                                              | Some k => str_eqb k (fst kv) && sexp_eqb v (snd kv)
+                                              | None => false end
+                                          | _ => false end) got) exp.
+
+Fixpoint distinct_names (its : list item) (seen : list str) : list str :=
+  match its with
+  | [] => []
+  | IMap _ n _ :: r => if existsb (str_eqb n) seen then distinct_names r seen
+                       else n :: distinct_names r (n :: seen)
+  | _ :: r => distinct_names r seen
+  end.
+
+Definition args_expect (spec : bool) (ws : list str) : option (option (list str * list (str * option aval) * list (unit * option aval))) :=
+  if spec then
+    match items false ws with
+    | Some its =>
+        Some (Some (rest_spec false None its,
+                    map (fun n => (n, first_binding n its)) (distinct_names its []),
+                    map (fun a => (tt, Some a)) (positional_spec false None its)))
+    | None => Some None
+    end
+  else
+    match parse_args ws with
+    | AOk rest named pos _ => Some (Some (rest, map (fun e => (fst e, Some (snd e))) named, map (fun a => (tt, a)) pos))
+    | AError => Some None
+    | AUnmodelled => None
+    end.
+
+Definition args_line (spec : bool) (e : sexp) : sexp :=
+  match e with
+  | SList [_; SList ws; SList dict; impl] =>
+      match dec_list (fun w => match w with Atom h => parse_hexs h | _ => None end) ws with
+      | Some ws =>
+          match args_expect spec ws with
+          | None => A "unmodelled"
+          | Some None => judge (A "err") impl
+          | Some (Some (rest, named, pos)) =>
+              if negb (match rest with [q] => is_str "$ARGS" q | _ => false end) then A "unexpected-rest"
+              else match resolve_all dict named, resolve_all dict pos with
+                   | Some named, Some pos =>
+                       let exp := SList [A "expected"; SList (map (fun kv => SList [Atom (print_hexs (fst kv)); snd kv]) named);
+                                         SList (map snd pos)] in
+                       match impl with
+                       | SList [o; SList [oo; SList [_; SList (o1 :: gn)]; SList [_; SList (a1 :: gp)]]] =>
+                           if atom_is "out" o && atom_is "o" oo && atom_is "o" o1 && atom_is "a" a1
+                              && named_matches named gn && sexp_eqb (SList (map snd pos)) (SList gp)
+                           then A "ok" else SList [A "bad"; exp]
+                       | _ => SList [A "bad"; exp]
+                       end
+                   | _, _ => judge (A "err") impl
+                   end
+          end
+      | None => A "undecodable"
+      end
+  | _ => A "undecodable"
+  end.
+
+
+Definition run_sexp (fuel : nat) (spec : bool) (e : sexp) : sexp :=
   match e with
   | SList (k :: _) =>
       if atom_is "stream" k then stream_line spec e
-      else if atom_is "inputs" k then inputs_line spec e
-      else if atom_is "raw" k then raw_line spec e
+      else if atom_is "inputs" k then inputs_line fuel spec e
       else if atom_is "args" k then args_line spec e
       else A "undecodable"
   | _ => A "undecodable"
@@ -64,7 +243,9 @@ Definition run_sexp (spec : bool) (e : sexp) : sexp :=
 
 Definition run_line (l : list N) : list N :=
   match parse l with
-  | Some (SList [k; e]) => if atom_is "spec" k then print (run_sexp true e) else print (run_sexp false (SList [k; e]))
-  | Some e => print (run_sexp false e)
+  | Some (SList [k; e]) =>
+      if atom_is "spec" k then print (run_sexp (S (S (List.length l))) true e)
+      else print (run_sexp (S (S (List.length l))) false (SList [k; e]))
+  | Some e => print (run_sexp (S (S (List.length l))) false e)
   | None => codes "unparsable"
   end.
